@@ -498,7 +498,9 @@ def gen_hierarchy(rng, idx: int) -> dict:
             mode = rng.choice(["req", "req", "def"])
             fields.append({"name": f"v{j}f{i}", "type": t, "mode": mode})
         classes.append({"suffix": f"V{j}", "parent": parent, "tag": f"tag{j}" if tag_style != "none" else None,
-                        "tag_style": tag_style, "fields": fields, "forbid": rng.random() < 0.2})
+                        "tag_style": tag_style, "fields": fields, "forbid": rng.random() < 0.2,
+                        # the variant's OWN from_dict may raise any class (user hook), KeyError / AttributeError included
+                        "hook": rng.random() < 0.35})
     # ADD_DIALECT_SUPPORT: calls may pass dialect= (an empty Dialect: same outcome demanded)
     dialect_support = flavour in ("config-mixin", "config-msgpack", "config-orjson") and rng.random() < 0.6
     return {"idx": idx, "flavour": flavour, "field": field, "classes": classes, "dialect_support": dialect_support}
@@ -531,6 +533,12 @@ def hier_source(h: dict, prefix: str) -> str:
             body.append(f"    {h['field']}: Literal[{c['tag']!r}] = field(default={c['tag']!r}, kw_only=True)")
         if c["forbid"]:
             body += ["    class Config(BaseConfig):", "        forbid_extra_keys = True"]
+        if c.get("hook"):
+            body += ["    @classmethod", "    def __pre_deserialize__(cls, d):",
+                     "        if isinstance(d, dict) and 'boom' in d:",
+                     "            raise {'key': KeyError, 'attr': AttributeError, 'type': TypeError, 'lookup': LookupError,"
+                     " 'index': IndexError}[d['boom']]('boom')",
+                     "        return d"]
         lines += body or ["    pass"]
     if h["flavour"] == "annotated-field":
         lines += ["@dataclass", f"class {base}Holder(DataClassDictMixin):",
@@ -592,5 +600,7 @@ def hier_inputs(rng, h: dict) -> list:
             d[h["field"]] = rng.choice([["tag0"], {"a": 1}])
         elif kind == "odd-tag":
             d[h["field"]] = rng.choice([None, 0, 1.5, True])
+        if isinstance(d, dict) and any(c.get("hook") for c in h["classes"]) and rng.random() < 0.4:
+            d["boom"] = rng.choice(["key", "key", "attr", "type", "lookup", "index", "nope"])
         out.append(d)
     return out
